@@ -16,6 +16,8 @@
 #include <kernel/assembly/domain_assembler_helpers.hpp>
 #include <kernel/assembly/function_integral_jobs.hpp>
 #include <kernel/assembly/basic_assembly_jobs.hpp>
+#include <kernel/assembly/burgers_assembly_job.hpp>
+#include <kernel/lafem/dense_vector_blocked.hpp>
 #include <kernel/assembly/symbolic_assembler.hpp>
 #include <kernel/geometry/common_factories.hpp>
 #include <kernel/geometry/conformal_mesh.hpp>
@@ -438,7 +440,7 @@ namespace
       for(int j = 0; j < njobs; ++j)
       {
         rec.job = j;
-        int kind = int(sim::cfg_weighted(K(("job" + std::to_string(j)).c_str()), {4, 2, 2, 3, 3, 2, 2, 1, 1, 1, 1, 1, 2, 1}));
+        int kind = int(sim::cfg_weighted(K(("job" + std::to_string(j)).c_str()), {4, 2, 2, 3, 3, 2, 2, 1, 1, 1, 1, 1, 2, 1, 2, 1}));
         bool fail_job = false;
         bool scat = true;
         long nsel = long(selected.size());
@@ -532,6 +534,59 @@ namespace
               REC = &ref_rec; Wrap<JobType> rw(rjob); ref.assemble_master(rw); REC = &rec;
             }
             compare("blocked operator matrix", m.template val<LAFEM::Perspective::pod>(), rm.template val<LAFEM::Perspective::pod>(), m.template used_elements<LAFEM::Perspective::pod>(), 1e-12);
+          }
+          break;
+        case 14: // Burgers operator with streamline diffusion into a BCSR matrix: the task keeps per-cell state (mean
+        case 15: // velocity, local mesh width, local stabilisation parameter) between prepare() and assemble(); 15: CSR
+          {
+            constexpr int bd = Mesh_::world_dim;
+            typedef LAFEM::DenseVectorBlocked<double, Index, bd> ConvVector;
+            // convection field: linear, with its stagnation point in the barycentre of a seeded selected cell (the
+            // stabilisation parameter of that cell is not computed from the velocity but has to be zero there)
+            const auto& vtx = mesh.get_vertex_set();
+            const auto& idx = mesh.template get_index_set<Mesh_::shape_dim, 0>();
+            const Index c0 = selected[size_t(sim::cfg_int(K(("stag" + std::to_string(j)).c_str()), 0, 1 << 20)) % selected.size()];
+            double x0[3] = {0, 0, 0};
+            for(int k = 0; k < idx.num_indices; ++k) for(int d = 0; d < bd; ++d) x0[d] += double(vtx[idx(c0, k)][d]) / double(idx.num_indices);
+            ConvVector conv(mesh.get_num_entities(0));
+            for(Index v = 0; v < mesh.get_num_entities(0); ++v)
+            {
+              Tiny::Vector<double, bd> t;
+              for(int d = 0; d < bd; ++d) t[d] = ((d % 2) ? -1.0 : 1.0) * (double(vtx[v][d]) - x0[d]) + (d + 1 < bd ? 0.5 * (double(vtx[v][d + 1]) - x0[d + 1]) : 0.0);
+              conv(v, t);
+            }
+            const double sd = double(sim::cfg_int(K(("sd" + std::to_string(j)).c_str()), 0, 3)) * 0.15;
+            const double fb = double(sim::cfg_int(K(("frechet" + std::to_string(j)).c_str()), 0, 1));
+            auto setup = [&](auto& job) { job.nu = 0.1; job.theta = 0.5; job.beta = 1.0; job.frechet_beta = fb; job.sd_delta = sd; job.sd_nu = 0.1; job.set_sd_v_norm(conv); };
+            if(kind == 14)
+            {
+              typedef LAFEM::SparseMatrixBCSR<double, Index, bd, bd> BMatrix;
+              BMatrix m, rm;
+              Assembly::SymbolicAssembler::assemble_matrix_std1(m, space);
+              rm = m.clone(LAFEM::CloneMode::Weak);
+              m.format(); rm.format();
+              typedef Assembly::BurgersBlockedMatrixAssemblyJob<BMatrix, SpaceType, ConvVector> JobType;
+              JobType job(m, conv, space, "auto-degree:3"), rjob(rm, conv, space, "auto-degree:3");
+              setup(job); setup(rjob);
+              Wrap<JobType> w(job);
+              da.assemble(w);
+              REC = &ref_rec; Wrap<JobType> rw(rjob); ref.assemble_master(rw); REC = &rec;
+              compare("Burgers matrix (blocked)", m.template val<LAFEM::Perspective::pod>(), rm.template val<LAFEM::Perspective::pod>(), m.template used_elements<LAFEM::Perspective::pod>(), 1e-12);
+            }
+            else
+            {
+              MatrixType m, rm;
+              Assembly::SymbolicAssembler::assemble_matrix_std1(m, space);
+              rm = m.clone(LAFEM::CloneMode::Weak);
+              m.format(); rm.format();
+              typedef Assembly::BurgersScalarMatrixAssemblyJob<MatrixType, SpaceType, ConvVector> JobType;
+              JobType job(m, conv, space, "auto-degree:3"), rjob(rm, conv, space, "auto-degree:3");
+              setup(job); setup(rjob);
+              Wrap<JobType> w(job);
+              da.assemble(w);
+              REC = &ref_rec; Wrap<JobType> rw(rjob); ref.assemble_master(rw); REC = &rec;
+              compare("Burgers matrix (scalar)", m.val(), rm.val(), m.used_elements(), 1e-12);
+            }
           }
           break;
         case 5: // real function integral (no scatter, combine under the mutex)
